@@ -1,7 +1,7 @@
 (* ===== C04 : a model spec replays the recorded encoding on any data ===== *)
 From Coq Require Import List NArith ZArith QArith Qcanon Bool Arith.
 Import ListNotations.
-Require Import Mat Mat2 ReplayLaws MatLaws.
+Require Import Mat Mat2 SpecRec ReplayLaws MatLaws MatSep ReplaySelf.
 Open Scope nat_scope.
 
 (* On ANY data on which reuse succeeds the column names are the names recorded in the spec, in the recorded order
@@ -38,7 +38,26 @@ Example C04_example :
   inl ([[65;91;120;93]%N; [65;91;121;93]%N], [[Some (Q2Qc 1); Some (Q2Qc 1)]; [Some (Q2Qc 0); Some (Q2Qc 0)]], []).
 Proof. vm_compute. reflexivity. Qed.
 
+(* THE statement: the spec a build records (structure rows with their column names, the kind and level list of every encoded
+   factor, the build configuration), replayed on the data it was built from with the same caller rows, reproduces the matrix:
+   same names, same columns cell by cell, same drop set. *)
+Theorem C04_replay_reproduces : forall d n c terms o,
+  build d n c terms = inl o ->
+  exists evs, eval_pool d (pool_of terms) [] = inl evs /\
+    replay (spec_of c terms evs n) d n (caller_drop c) = inl (o_names o, o_cols o, o_drop o).
+Proof. exact replay_reproduces. Qed.
+(* the recorded level list pins the encoding: with it, encoding equals the original encoding of the training data *)
+Theorem C04_recorded_levels_reproduce_encoding : forall evs drop e v red, lookup_ev evs e = Some v ->
+  encode_with e v red drop (match enc_lookup (enc_of evs drop) e with Some (KCat l) => Some l | _ => None end) = encode e v red drop.
+Proof. exact encode_with_recorded. Qed.
+(* enforcing a generated term against its own recorded column names changes nothing *)
+Theorem C04_enforce_is_identity_on_recorded_names : forall gen n, NoDup (map fst gen) -> enforce gen (map fst gen) n = inl gen.
+Proof. exact enforce_self. Qed.
+
 Print Assumptions C04_replay_names_fixed.
+Print Assumptions C04_replay_reproduces.
+Print Assumptions C04_recorded_levels_reproduce_encoding.
+Print Assumptions C04_enforce_is_identity_on_recorded_names.
 Print Assumptions C04_pinned_names_data_independent.
 Print Assumptions C04_absent_level_zero_column.
 Print Assumptions C04_indicator_rowwise.
